@@ -122,7 +122,11 @@ def build(case):
             obj = BaseTask(**kw)
         tasks.append(obj)
     for (p, s, k) in case.get("edges", []):
-        tasks[s].append_input_task(tasks[p], task_dependency_mode=BaseTaskDependency(k))
+        # the dependency kind as an enum member or as the plain int the JSON format stores
+        tasks[s].append_input_task(tasks[p], task_dependency_mode=(int(k) if case.get("int_deps") else BaseTaskDependency(k)))
+    for (p, s_, k) in case.get("edges_in", []):
+        # a dependency declared on the successor's side only: BaseTask(input_task_list=[[pred, kind]])
+        tasks[s_].input_task_list.append([tasks[p], BaseTaskDependency(k)])
     comps = []
     for i, c in enumerate(case.get("comps", [])):
         comps.append(BaseComponent("cn%d" % i, ID="c%d" % i, space_size=fl(c.get("size", "1"))))
@@ -132,13 +136,19 @@ def build(case):
     for i, t in enumerate(case["tasks"]):
         if t.get("comp") is not None:
             comps[t["comp"]].append_targeted_task(tasks[i])
+    for ci, c in enumerate(case.get("comps", [])):
+        for i in c.get("extra_tasks", []):
+            # listed by the component only: BaseComponent(targeted_task_list=[...]) sets no back reference
+            comps[ci].targeted_task_list.append(tasks[i])
     workers, teams = [], []
+    # nothing forbids a team and a workplace with the same ID string: with same_ids team i is called "wp<i>"
+    tid_fmt = "wp%d" if case.get("same_ids") else "team%d"
     for ti, tm in enumerate(case.get("teams", [])):
         ws = []
         for w in tm["workers"]:
             gi = len(workers)
             wk = BaseWorker(
-                "wn%d" % w.get("name", gi), ID="w%d" % gi, team_id="team%d" % ti,
+                "wn%d" % w.get("name", gi), ID="w%d" % gi, team_id=(tid_fmt % ti),
                 cost_per_time=fl(w.get("cost", "0")), solo_working=bool(w.get("solo", False)),
                 workamount_skill_mean_map={"n%s" % k: fl(v) for k, v in w.get("skills", {}).items()},
                 facility_skill_map={"fn%s" % k: fl(v) for k, v in w.get("fskills", {}).items()},
@@ -147,7 +157,7 @@ def build(case):
             )
             ws.append(wk)
             workers.append(wk)
-        team = BaseTeam("teamn%d" % ti, ID="team%d" % ti, worker_list=ws)
+        team = BaseTeam("teamn%d" % ti, ID=(tid_fmt % ti), worker_list=ws)
         teams.append(team)
     facs, wps = [], []
     for pi, wp in enumerate(case.get("wps", [])):
@@ -165,7 +175,12 @@ def build(case):
         wps.append(BaseWorkplace("wpn%d" % pi, ID="wp%d" % pi, facility_list=fs, max_space_size=fl(wp.get("cap", "1"))))
     for pi, wp in enumerate(case.get("wps", [])):
         for inp in wp.get("inputs", []):
-            wps[pi].append_input_workplace(wps[inp])
+            if case.get("wp_oneside"):
+                wps[pi].input_workplace_list.append(wps[inp])      # BaseWorkplace(input_workplace_list=[...])
+            else:
+                wps[pi].append_input_workplace(wps[inp])
+        for q in wp.get("out_only", []):
+            wps[pi].output_workplace_list.append(wps[q])           # declared on the source's side only
         if wp.get("parent") is not None:
             wps[pi].parent_workplace = wps[wp["parent"]]
     for ti, tm in enumerate(case.get("teams", [])):
@@ -190,6 +205,8 @@ def build(case):
 def idx_of(prefix, s):
     if s is None:
         return None
+    if prefix == "team" and s.startswith("wp"):        # cases with same_ids: team i and workplace i share the ID "wp<i>"
+        return int(s[2:])
     assert s.startswith(prefix), (prefix, s)
     return int(s[len(prefix):])
 
@@ -294,6 +311,11 @@ class Crash(Exception):
     pass
 
 
+class HardCrash(BaseException):
+    """an interruption that is not an Exception (like KeyboardInterrupt / SystemExit)"""
+    pass
+
+
 # ------------------------------------------------------------- operations
 def sim_kwargs(op):
     return dict(
@@ -305,6 +327,14 @@ def sim_kwargs(op):
         max_time=int(op.get("max_time", 200)),
         **({"unit_time": int(op["unit_time"])} if op.get("unit_time", 1) != 1 else {}),
     )
+
+
+def sim_kwargs_for(op):
+    """sim_kwargs without the keyword arguments listed in op["omit"] (left at their defaults)"""
+    kw = sim_kwargs(op)
+    for k in op.get("omit", []):
+        kw.pop(k, None)
+    return kw
 
 
 def run_ops(case, want_snaps=True, ops=None, built=None):
@@ -331,6 +361,8 @@ def run_ops(case, want_snaps=True, ops=None, built=None):
                 rec["struct_inner_idx"] = structure_idx(project, len(case["tasks"]))
             cr = op.get("crash")
             if cr is not None and project.time == cr[0] and phase == cr[1]:
+                if len(cr) > 2 and cr[2] == "base":
+                    raise HardCrash("injected at step %d phase %s" % (cr[0], cr[1]))
                 raise Crash("injected at step %d phase %s" % (cr[0], cr[1]))
         p._verif_observer = observer
         name = op["op"]
@@ -338,7 +370,7 @@ def run_ops(case, want_snaps=True, ops=None, built=None):
             with warnings.catch_warnings(record=True) as wl:
                 warnings.simplefilter("always")
                 if name == "simulate":
-                    p.simulate(**sim_kwargs(op))
+                    p.simulate(**sim_kwargs_for(op))
                 elif name == "simulate_default":
                     # every optional argument left at its default value
                     p.simulate(max_time=int(op.get("max_time", 200)))
@@ -380,7 +412,7 @@ def run_ops(case, want_snaps=True, ops=None, built=None):
                 else:
                     raise ValueError(name)
             rec["warn"] = [str(w.message) for w in wl]
-        except Crash as e:
+        except (Crash, HardCrash) as e:
             rec["exc"] = "Crash"
         except Exception as e:
             rec["exc"] = "%s: %s" % (type(e).__name__, e)
